@@ -413,6 +413,8 @@ def frame_spec(r: random.Random, mx=None, rows=None, nch=None, sources=('inline'
         w['from_idx'] = a
         w['to_idx'] = r.choice([b, b, None]) if True else b
     sp['write'] = w
+    if r.random() < 0.25:
+        sp['caller_reuses_lists'] = r.choice([True, 'keeps-last'])     # (spec.run_op: one caller-owned list per keyword, refilled for every call)
     return sp
 
 
